@@ -99,13 +99,34 @@ type client struct {
 	prefix  string
 	payload []byte
 	short   bool // sends fewer bytes than the prefix length, then closes
+	expectRoute string // live listener registered for the prefix when the connection arrived (cleared if the application closes it later)
 	settled bool // the process was quiescent after this connection arrived and before the mux was stopped
 	pair    *simnet.Pair
 	sent    []byte
 }
 
+// readAllSmall reads to EOF with a cycle of (possibly tiny) buffer sizes.
+func readAllSmall(c net.Conn, sizes []int) ([]byte, error) {
+	var out []byte
+	for i := 0; ; i++ {
+		buf := make([]byte, sizes[i%len(sizes)])
+		n, err := c.Read(buf)
+		out = append(out, buf[:n]...)
+		if len(out) > 1<<20 {
+			return out, errors.New("connection yields more than 1 MiB although the client sent a few hundred bytes")
+		}
+		if err != nil {
+			if err == io.EOF {
+				return out, nil
+			}
+			return out, err
+		}
+	}
+}
+
 func muxScenario(id string, seed uint64) runner.Result {
 	r := &payload.SplitMix{S: seed}
+	readSizes := [][]int{{512}, {1}, {3}, {1, 2, 5}, {7, 64}}[r.Intn(5)]
 	plen := []int{1, 4, 8}[r.Intn(3)]
 	base := newBase()
 	mux := drpcmigrate.NewListenMux(base, plen)
@@ -121,6 +142,7 @@ func muxScenario(id string, seed uint64) runner.Result {
 		closed   bool
 		acceptor bool
 	}
+	liveRoute := map[string]string{} // prefix -> name of the live listener currently registered for it
 	var lists []*lst
 	lists = append(lists, &lst{name: "default", l: mux.Default(), closedAt: -1, acceptor: r.Intn(8) != 0})
 
@@ -139,7 +161,7 @@ func muxScenario(id string, seed uint64) runner.Result {
 				}
 				census.Bump()
 				rig.Go("read:"+name, func() (interface{}, error) {
-					data, rerr := io.ReadAll(c)
+					data, rerr := readAllSmall(c, readSizes)
 					// the wrapped conn promotes LocalAddr of the endpoint underneath
 					end := c.LocalAddr().String()
 					mu.Lock()
@@ -162,6 +184,7 @@ func muxScenario(id string, seed uint64) runner.Result {
 		routesAdded++
 		ls := &lst{name: "route:" + p, l: mux.Route(p), closedAt: -1, acceptor: r.Intn(5) != 0}
 		lists = append(lists, ls)
+		liveRoute[p] = ls.name
 		steps = append(steps, "Route("+p+")")
 		if ls.acceptor {
 			startAcceptor(ls)
@@ -177,6 +200,8 @@ func muxScenario(id string, seed uint64) runner.Result {
 
 	var clients []*client
 	routeEverClosed := map[string]bool{}
+	regen := map[string]int{}
+
 	nconn := 2 + r.Intn(8)
 	stopped := false
 	settle := func() {
@@ -191,16 +216,39 @@ func muxScenario(id string, seed uint64) runner.Result {
 		if routesAdded < nroutes && r.Intn(3) == 0 {
 			addRoute()
 		}
-		// maybe close a route listener
+		// maybe close a route listener, and maybe register the same prefix again right away
 		if len(lists) > 1 && r.Intn(6) == 0 {
 			ls := lists[1+r.Intn(len(lists)-1)]
 			if !ls.closed {
 				ls.closed = true
-				routeEverClosed[strings.TrimPrefix(ls.name, "route:")] = true
+				p := strings.TrimPrefix(ls.name, "route:")
+				if i := strings.IndexByte(p, '#'); i >= 0 {
+					p = p[:i]
+				}
+				routeEverClosed[p] = true
+				delete(liveRoute, p)
+				for _, c := range clients {
+					if c.prefix == p {
+						c.expectRoute = "" // its route was closed by the application after it arrived: any allowed outcome
+					}
+				}
 				ls.l.Close()
 				steps = append(steps, "Close("+ls.name+")")
 				if r.Intn(2) == 0 {
 					census.Quiesce(rig.Watchdog)
+				}
+				if r.Intn(2) == 0 {
+					regen[p]++
+					nl := &lst{name: fmt.Sprintf("route:%s#%d", p, regen[p]), l: mux.Route(p), closedAt: -1, acceptor: true}
+					lists = append(lists, nl)
+					steps = append(steps, "Route-again("+p+")")
+					startAcceptor(nl)
+					census.Quiesce(rig.Watchdog)
+					// Route may hand back the old, closed listener (its Accept fails at once): then nothing is promised.
+					// If it handed back a live listener, connections with that prefix arriving from now on belong to it.
+					if !acceptOps[len(acceptOps)-1].Returned() {
+						liveRoute[p] = nl.name
+					}
 				}
 			}
 		}
@@ -218,6 +266,7 @@ func muxScenario(id string, seed uint64) runner.Result {
 				c.prefix = mkPrefix(0)
 			}
 		}
+		c.expectRoute = liveRoute[c.prefix]
 		c.payload = payload.Make(uint64(i), 0, 0, 0, r.Intn(300))
 		all := append([]byte(c.prefix), c.payload...)
 		if r.Intn(7) == 0 {
@@ -331,13 +380,15 @@ func muxScenario(id string, seed uint64) runner.Result {
 		}
 		switch {
 		case d.listener == "default":
-			if registered[c.prefix] && !routeEverClosed[c.prefix] && registeredBefore(steps, c) && c.settled {
+			if c.expectRoute != "" && c.settled {
+				fails = append(fails, fmt.Sprintf("conn%d has prefix %q, for which the live listener %s was registered before the connection arrived (and not closed since), but it was delivered to the default listener", c.id, c.prefix, c.expectRoute))
+			} else if registered[c.prefix] && !routeEverClosed[c.prefix] && registeredBefore(steps, c) && c.settled {
 				fails = append(fails, fmt.Sprintf("conn%d has registered prefix %q but was delivered to the default listener", c.id, c.prefix))
 			}
 			if !bytes.Equal(d.data, c.sent) {
 				fails = append(fails, fmt.Sprintf("conn%d via default listener yielded %d bytes %q..., want the unmodified stream of %d bytes starting with the prefix %q", c.id, len(d.data), clip(d.data), len(c.sent), c.prefix))
 			}
-		case d.listener == "route:"+c.prefix:
+		case d.listener == "route:"+c.prefix || strings.HasPrefix(d.listener, "route:"+c.prefix+"#"):
 			if !bytes.Equal(d.data, c.payload) {
 				fails = append(fails, fmt.Sprintf("conn%d via %s yielded %d bytes, want the %d payload bytes with the prefix consumed", c.id, d.listener, len(d.data), len(c.payload)))
 			}
